@@ -12,7 +12,7 @@ from __future__ import annotations
 import ast
 import typing as T
 
-from ..core import Module, Repo, Undecided, norm, short
+from ..core import Module, Repo, Undecided, AnchorMissing, norm, short
 from ..report import RuleCtx
 from ..consteval import fold_expr
 from ..cfg import CFG
@@ -89,6 +89,33 @@ def ctor_binding(repo: Repo, mod: Module, clsname: str, _depth: int = 0) -> T.Li
 # shapes
 # ---------------------------------------------------------------------------
 
+ROLE_KEYS = {'COMPARISON_MAP': {'equal', 'nequal', 'lt', 'le', 'gt', 'ge', 'in'}, 'ADDSUB_MAP': {'plus', 'dash'}, 'MULDIV_MAP': {'star', 'fslash', 'percent'},
+             'ALL_STRINGS': {'string', 'fstring', 'multiline_string', 'multiline_fstring'}}
+
+
+def table_role(repo: Repo, mod: Module, name: str) -> str:
+    """Role of a named token table, decided by its folded keys (a private constant may be renamed): the reference table it overlaps most."""
+    roles: T.Dict[str, str] = repo.__dict__.setdefault('_c01_roles', {})
+    back: T.Dict[str, str] = repo.__dict__.setdefault('_c01_role_of', {})
+    if name in back:
+        return back[name]
+    role = name
+    try:
+        keys = set(fold_expr(repo, mod, ast.Name(id=name, ctx=ast.Load())))
+        best = max(ROLE_KEYS, key=lambda r: (len(ROLE_KEYS[r] & keys), -len(ROLE_KEYS[r] ^ keys)))
+        if ROLE_KEYS[best] & keys:
+            role = best
+    except (Undecided, TypeError, AnchorMissing):
+        pass
+    back[name] = role
+    roles.setdefault(role, name)
+    return role
+
+
+def actual_name(repo: Repo, role: str) -> str:
+    return repo.__dict__.get('_c01_roles', {}).get(role, role)
+
+
 def O(meth: str, i: int, *args: T.Any) -> T.Tuple[T.Any, ...]:
     return ('operand', meth, i, tuple(args))
 
@@ -135,7 +162,7 @@ class Summary:
         if a[0] == 'const' and isinstance(a[1], str):
             return a[1]
         if a[0] == 'name' and t[2] == 'self.accept_any':
-            return ('any', a[1])
+            return ('any', table_role(self.ctx.repo, self.mod, a[1]))
         raise Undecided(f'{self.qn}: token argument of {show(t)} is not a literal or a named table')
 
     def shape(self, t: T.Any) -> T.Any:
@@ -158,7 +185,7 @@ class Summary:
                 return ('operand', fname[5:], self.ord[t[1]], tuple(self.shape(a) for a in args))
             return ('call', fname, tuple(self.shape(a) for a in args))
         if k == 'sub' and t[1][0] == 'name' and is_call(t[2], 'self.accept_any') and t[2][4] and t[2][4][0] == t[1]:
-            return ('mapped', t[1][1])
+            return ('mapped', table_role(self.repo, self.mod, t[1][1]))
         return ('?', show(t))
 
     def _node(self, cls: str, args: T.Sequence[T.Any], kws: T.Sequence[T.Tuple[str, T.Any]]) -> T.Any:
@@ -259,7 +286,7 @@ def _summaries(ctx: RuleCtx, mod: Module, meth: str, unroll: int = 3) -> T.Tuple
     fn = mod.func(f'Parser.{meth}')
     rets: T.List[Summary] = []
     raises: T.List[Summary] = []
-    for sp in sym_paths(fn, unroll=unroll, helpers=private_helpers(mod.cls('Parser'))):
+    for sp in sym_paths(fn, unroll=unroll, helpers=parser_helpers(mod), mod=mod):
         s = Summary(ctx, mod, f'Parser.{meth}', sp)
         if sp.outcome == 'return':
             rets.append(s)
@@ -292,6 +319,26 @@ def _rename_params(fn: ast.FunctionDef, shape: T.Any) -> T.Any:
     return rec(shape)
 
 
+def _opaque_self_calls(shape: T.Any) -> T.List[str]:
+    out: T.List[str] = []
+    if isinstance(shape, tuple):
+        if len(shape) == 3 and shape[0] == 'call' and isinstance(shape[1], str) and shape[1].startswith('self.'):
+            out.append(shape[1])
+        for x in shape:
+            out += _opaque_self_calls(x)
+    return out
+
+
+PARSER_VOCABULARY = OPERAND_METHODS | {'accept', 'accept_any', 'expect', 'block_expect', 'create_node', 'getsym', 'getline', 'parse', 'line', 'codeblock',
+                                       'ifblock', 'elseifblock', 'elseblock', 'foreachblock', 'testcaseblock'}
+
+
+def parser_helpers(mod: Module) -> T.Dict[str, ast.FunctionDef]:
+    """Methods of Parser that are not part of the grammar vocabulary: candidates for extracted blocks (spliced back before path enumeration)."""
+    return {s.name: s for s in mod.cls('Parser').body if isinstance(s, ast.FunctionDef) and s.name not in PARSER_VOCABULARY and not s.name.startswith('__')
+            and not s.decorator_list}
+
+
 def check_level(ctx: RuleCtx, mod: Module, meth: str) -> None:
     ref = LADDER[meth]
     table: T.Dict[T.Tuple[T.Any, ...], T.Any] = ref['table']
@@ -320,6 +367,8 @@ def check_level(ctx: RuleCtx, mod: Module, meth: str) -> None:
                           f'allows only {sorted(fmt_tokens(k) for k in table)} at this level', s.sp.last_node)
             continue
         for sh, s in shapes.items():
+            if sh != want and _opaque_self_calls(sh):
+                raise Undecided(f'{qn}: the tree is built through {_opaque_self_calls(sh)}, which this rule cannot see into')
             ctx.require(sh == want, f'{meth}: `{fmt_tokens(toks)}` -> {fmt(want)}', mod, qn, f'{meth}: tokens {fmt_tokens(toks)} -> {fmt(sh)}',
                         f'after `{fmt_tokens(toks)}` level {meth} returns {fmt(sh)}; the reference ladder requires {fmt(want)} '
                         f'(operands are numbered in evaluation order)', s.sp.last_node)
@@ -340,22 +389,31 @@ def check_level(ctx: RuleCtx, mod: Module, meth: str) -> None:
     for t in sorted({t for toks in table for t in toks if isinstance(t, tuple)}):
         if True:
             if t[1] in TOKEN_TABLES:
-                keys = set(fold_expr(ctx.repo, mod, ast.Name(id=t[1], ctx=ast.Load())))
+                tname = actual_name(ctx.repo, t[1])
+                keys = set(fold_expr(ctx.repo, mod, ast.Name(id=tname, ctx=ast.Load())))
                 need = TOKEN_TABLES[t[1]]
                 extra_ok = {'not in'} if t[1] == 'COMPARISON_MAP' else set()
-                ctx.require(need <= keys and keys - need <= extra_ok, f'{meth}: token table {t[1]} = {sorted(keys)}', mod, '<module>', f'{t[1]} token ids',
-                            f'{t[1]} accepts token ids {sorted(keys)}; level {meth} of the reference grammar takes exactly {sorted(need)}', mod.assign_value(t[1]))
+                ctx.require(need <= keys and keys - need <= extra_ok, f'{meth}: token table {tname} = {sorted(keys)}', mod, '<module>', f'{tname} token ids',
+                            f'{tname} accepts token ids {sorted(keys)}; level {meth} of the reference grammar takes exactly {sorted(need)}', mod.assign_value(tname))
 
 
 def check_ternary_flag(ctx: RuleCtx, mod: Module) -> None:
     """K1: `in_ternary` is tested before, true during both arm parses, reset after."""
     qn = 'Parser.e1'
     rets, raises = _summaries(ctx, mod, 'e1')
+    # the flag is found by role: the attribute that the `?` paths set to a boolean constant
+    flags = {a.term[0] for s in rets + raises if 'questionmark' in s.tokens for a in s.sp.actions
+             if a.kind == 'write' and a.term[1][0] == 'const' and isinstance(a.term[1][1], bool)}
+    if len(flags) > 1:
+        raise Undecided(f'Parser.e1: several boolean flags are written on the ternary path: {sorted(flags)}')
+    if not flags and any(t[4] or t[5] for s in rets if 'questionmark' in s.tokens for t in s.operands if t[2] == 'self.e1'):
+        raise Undecided('Parser.e1: the arm parses take arguments - nested ternaries may be rejected by another mechanism than a flag')
+    FLAG = next(iter(flags)) if flags else 'self.in_ternary'
     n = 0
     for s in rets:
         if 'questionmark' not in s.tokens:
             # no other path may leave the flag set
-            ws = s.sp.writes('self.in_ternary')
+            ws = s.sp.writes(FLAG)
             ctx.require(not ws or ws[-1] == ('const', False), f'e1 `{fmt_tokens(s.tokens)}`: in_ternary untouched', mod, qn,
                         f'in_ternary after {fmt_tokens(s.tokens)}', 'a non-ternary path of e1 leaves in_ternary set', s.sp.last_node)
             continue
@@ -366,12 +424,12 @@ def check_ternary_flag(ctx: RuleCtx, mod: Module) -> None:
         rec = [t for t in s.operands if t[2] == 'self.e1']
         rec_seq = {t[1] for t in rec}
         for a in s.sp.actions:
-            if a.kind == 'cond' and a.term == ('name', 'self.in_ternary'):
+            if a.kind == 'cond' and a.term == ('name', FLAG):
                 if a.val is False and state == 'unset':
                     tested = True
                 elif a.val is True:
                     bad.append('returns a ternary although in_ternary was set')
-            elif a.kind == 'write' and a.term[0] == 'self.in_ternary':
+            elif a.kind == 'write' and a.term[0] == FLAG:
                 state = a.term[1]
             elif a.kind == 'call' and a.term[1] in rec_seq:
                 if state != ('const', True):
@@ -385,7 +443,7 @@ def check_ternary_flag(ctx: RuleCtx, mod: Module) -> None:
         ctx.require(not bad, 'e1 ternary path: in_ternary tested, set during both arm parses, reset afterwards', mod, qn, 'in_ternary protocol',
                     'nested-ternary guard broken: ' + '; '.join(bad), s.sp.last_node)
     ctx.floor('ternary paths of e1', n, 1)
-    rej = [s for s in raises if 'questionmark' in s.tokens and any(t == ('name', 'self.in_ternary') and v for t, v in s.sp.conds())]
+    rej = [s for s in raises if 'questionmark' in s.tokens and any(t == ('name', FLAG) and v for t, v in s.sp.conds())]
     ok = bool(rej) and all(not [t for t in s.operands if t[2] == 'self.e1'] for s in rej)
     ctx.require(ok, 'e1: `?` while in_ternary raises before parsing an arm', mod, qn, 'nested ternary rejected',
                 'no path rejects `?` while in_ternary is set (nested ternary must be a parse error)', mod.func(qn))
@@ -500,9 +558,10 @@ def check_e10(ctx: RuleCtx, mod: Module) -> None:
     for toks in E10:
         if toks not in seen:
             ctx.violation(mod, qn, f'e10: tokens {fmt_tokens(toks)} missing', f'level 10 has no path for `{fmt_tokens(toks)}` -> {E10[toks][0]}', fn)
-    strings = fold_expr(ctx.repo, mod, ast.Name(id='ALL_STRINGS', ctx=ast.Load()))
-    ctx.require(set(strings) == {'string', 'fstring', 'multiline_string', 'multiline_fstring'}, f'ALL_STRINGS = {sorted(strings)}', mod, '<module>', 'ALL_STRINGS',
-                f'ALL_STRINGS is {sorted(strings)}; the four string token kinds are string, fstring, multiline_string, multiline_fstring', mod.assign_value('ALL_STRINGS'))
+    sname = actual_name(ctx.repo, 'ALL_STRINGS')
+    strings = fold_expr(ctx.repo, mod, ast.Name(id=sname, ctx=ast.Load()))
+    ctx.require(set(strings) == {'string', 'fstring', 'multiline_string', 'multiline_fstring'}, f'{sname} = {sorted(strings)}', mod, '<module>', 'string token kinds',
+                f'{sname} is {sorted(strings)}; the four string token kinds are string, fstring, multiline_string, multiline_fstring', mod.assign_value(sname))
 
 
 def check_accept(ctx: RuleCtx, mod: Module) -> None:
